@@ -1,5 +1,320 @@
-"""C17 part 2 (gate) — placeholder until the session model lands."""
+"""C17 part 2 (gate): a real NodeServer + NodeSession driven by a scripted adversarial peer
+(harness/src/bin/eng_gate.rs) vs. the session model coq/Cluster/Gate.v.
+
+For every script: the implementation's per-step observations are (a) judged by the executable
+oracles check_C17 / check_C17_closed (evaluated in Coq on the implementation's observations) and
+by the handshake oracle below, and (b) compared, as a view, with the model's run on the same
+messages, the environment's answers (random challenge, node-server replies, listed sessions)
+being read off the frames the real session wrote."""
+import json
+
+from common import *
+
+IMPORTS = "Cluster.Auth Cluster.Gate"
+K = 1 << 32
+
+PAYLOAD = ["cast R", "cast R", "cast P", "cast NS", "cast SESS", "cast NONE", "call R 3 -", "call R 4 50",
+           "call P 5 -", "reply 55 1", "kspawn 55", "kspawn 55 56:7", "kterm 55", "kterm 56 99",
+           "kjoin 1 1 55", "kjoin 1 2 55 57", "kjoin 2 1 60:4", "kleave 1 1 55", "kleave 1 2 57 58",
+           "kenum 1 2", "kenum 9 9", "ksessions 5:6", "kping 5", "kpong 3", "kready", "knone", "mnone",
+           "nempty"]
+PROTECTED_PAYLOAD = ["cast R", "call R 3 -", "kspawn 55", "kjoin 1 1 55", "kenum 9 9", "kterm 55", "reply 55 1"]
+WRONG = ["k:1:I", "k:2:I", "k:0:I:g1", "k:0:I:g2", "k:0:I:g3", "k:0:I:g4", "k:0:I:g5", "raw:0", "raw:1",
+         "raw:2", "k:0:12345", "k:0:0"]
+AUTH_NOISE = ["name 1 2 3", "name 100 2 3", "name 4 101 0", "sstatus 0", "sstatus 2", "sstatus 4", "cstatus 1",
+              "cstatus 0", "schal 7 8 99", "cchal 5 k:0:I", "sack k:0:I", "empty", "cchal 5 k:1:I", "sack raw:1"]
+
+
+def honest(server, rng):
+    if server:
+        return [f"name {rng.choice([1, 1, 2, 5])} {rng.choice([2, 3])} {rng.choice([0, 3, 2**63])}",
+                f"cchal {rng.choice([5, 0, 2**32 - 1])} k:0:I"]
+    return [f"sstatus {rng.choice([0, 0, 1, 4, 9])}", f"schal {rng.choice([7, 2])} {rng.choice([8, 3])} {rng.randint(0, 2**32 - 1)}",
+            "sack k:0:I"]
+
+
+def gen_live(chk, n):
+    rng = chk.rng
+    out = []
+    # systematic part: every protected payload at every position of the honest handshake, both roles
+    for server in (True, False):
+        base = honest(server, __import__("random").Random(5))
+        for pos in range(len(base) + 1):
+            for pl in PROTECTED_PAYLOAD + ["cast P", "cast NS", "cast NONE", "kenum 1 2"]:
+                ops = base[:pos] + [pl] + base[pos:] + [pl, "cast R", "kspawn 55"]
+                out.append((server, 0, ops))
+        # every wrong digest at the decisive message, followed by payloads and a replay of the right one
+        for wd in WRONG:
+            ops = list(base)
+            last = ops[-1].split()
+            last[-1] = wd
+            ops[-1] = " ".join(last)
+            ops += ["cast R", "kspawn 55", base[-1], "cast R", "kenum 9 9"]
+            out.append((server, 0, ops))
+    for _ in range(n):
+        server = rng.random() < 0.6
+        pre = 1 if (server and rng.random() < 0.2) else 0
+        ops = honest(server, rng)
+        style = rng.random()
+        if style < 0.35:
+            pass
+        elif style < 0.6:
+            last = ops[-1].split()
+            last[-1] = rng.choice(WRONG)
+            ops[-1] = " ".join(last)
+        elif style < 0.85:
+            i = rng.randrange(len(ops))
+            how = rng.choice(["ins", "rep", "drop", "dup"])
+            noise = rng.choice(AUTH_NOISE)
+            if how == "ins":
+                ops.insert(i, noise)
+            elif how == "rep":
+                ops[i] = noise
+            elif how == "drop":
+                del ops[i]
+            else:
+                ops.insert(i, ops[i])
+        else:
+            ops = [rng.choice(AUTH_NOISE) for _ in range(rng.randint(1, 4))]
+        # payloads before / between / after the handshake messages
+        k = rng.choice([0, 1, 2, 3])
+        for _ in range(k):
+            ops.insert(rng.randrange(len(ops) + 1), rng.choice(PAYLOAD))
+        for _ in range(rng.choice([2, 4, 6, 10])):
+            r = rng.random()
+            if r < 0.8:
+                ops.append(rng.choice(PAYLOAD))
+            elif r < 0.95:
+                ops.append(rng.choice(AUTH_NOISE))
+            else:
+                ops.append(f"malformed {rng.choice([0, 1])}")
+        out.append((server, pre, ops))
+    return out
+
+
+def live_line(c):
+    server, pre, ops = c
+    return f"live {'server' if server else 'client'} {pre} " + " ; ".join(ops)
+
+
+# ---------------------------------------------------------------------------------------------
+# terms
+
+def canon(t):
+    """sort the actor lists of KSpawn / KNodeSessions frames (HashMap / DashMap iteration order)"""
+    if isinstance(t, tuple) and t and t[0] in ("ESendControl",):
+        k = t[1]
+        if isinstance(k, tuple) and k[0] in ("KSpawn", "KNodeSessions") and isinstance(k[1], list):
+            return (t[0], (k[0], sorted(k[1], key=repr)))
+    return t
+
+
+def is_frame(t):
+    return isinstance(t, tuple) and t[0] in ("ESendAuth", "ESendControl")
+
+
+def head(t):
+    return t[0] if isinstance(t, tuple) else t
+
+
+REPLY = {0: "RNoOther", 1: "RThisContinues", 2: "ROtherContinues", 4: "RDuplicate"}
+
+
+def infer_env(step, rpid):
+    msg, flags, frames, deliv, proxies, groups, listed, rnd = step
+    check1 = "None"
+    for f in frames:
+        if head(f) == "ESendAuth" and head(f[1]) == "AServerStatus":
+            check1 = f"(Some {REPLY.get(f[1][1], 'ROtherContinues')})"
+    ready = any(head(f) == "ESendControl" and f[1] == "KReady" for f in frames)
+    check2 = "(Some RNoOther)" if ready else "None"
+    sess = "(Some [" + "; ".join(show_term(x[2]) for x in listed) + "])"
+    return (f"(mkEnv {rnd if rnd else 1} {check1} {check2} {sess} [{rpid}] [] [(900, 901, [{rpid}])])")
+
+
+def fold_model_view(mview, n_steps):
+    """model run_view -> per-step view comparable with the implementation's observations"""
+    out = []
+    proxies, groups = {}, {}
+    alive = True
+    for (ok, selfc, eff) in mview:
+        frames = [canon(x) for x in eff if is_frame(x)]
+        deliv = []
+        for x in eff:
+            h = head(x)
+            if h == "EDeliverCast":
+                deliv.append(("EDeliverCast", x[1]))
+            elif h == "EDeliverCall":
+                deliv.append(("EDeliverCall", x[1], 0))
+            elif h == "EProxySpawn":
+                proxies[x[1]] = x[2]
+            elif h == "EProxyStop":
+                proxies.pop(x[1], None)
+                for g in groups.values():
+                    g.discard(x[1])
+            elif h == "EPgJoin":
+                groups.setdefault((x[1], x[2]), set()).update(x[3])
+            elif h == "EPgLeave":
+                groups.setdefault((x[1], x[2]), set()).difference_update(x[3])
+        stopped = any(head(x) == "EStopSelf" for x in eff)
+        alive_now = alive and not stopped
+        okv = (ok == "true") and alive_now and selfc != "true"
+        alive_probe = alive_now and selfc != "true"
+        if not alive_now:
+            proxies, groups = {}, {}
+        out.append({"alive": alive_now, "ok": okv, "alive_probe": alive_probe, "frames": frames, "deliv": deliv,
+                    "proxies": sorted(proxies.items(), key=repr),
+                    "groups": sorted((k[0], k[1], sorted(v)) for k, v in groups.items() if v)})
+        alive = alive_probe
+        if not alive:
+            break
+    while len(out) < n_steps:
+        out.append({"alive": False, "ok": False, "alive_probe": False, "frames": [], "deliv": [], "proxies": [],
+                    "groups": []})
+    return out
+
+
+def impl_view(step):
+    msg, flags, frames, deliv, proxies, groups, listed, rnd = step
+    return {"alive": flags[1] == "true", "ok": flags[2] == "true", "alive_probe": flags[3] == "true",
+            "frames": [canon(f) for f in frames],
+            "deliv": [tuple(d) if isinstance(d, tuple) else d for d in deliv],
+            "proxies": sorted(((p[1], p[2]) for p in proxies), key=repr),
+            "groups": sorted((g[1], g[2], sorted(g[3])) for g in groups)}
+
+
+def impl_effects(steps, sess_alive_views):
+    """protected effects observed on the implementation, per step (for the Coq oracle)"""
+    out = []
+    prev_prox, prev_groups = {}, {}
+    for st in steps:
+        msg, flags, frames, deliv, proxies, groups, listed, rnd = st
+        eff = []
+        for d in deliv:
+            if head(d) == "EDeliverOther":
+                eff.append(f"EDeliverCast {d[1]}")
+            else:
+                eff.append(show_term(d)[1:-1])
+        cur = {p[1]: p[2] for p in proxies}
+        alive = flags[1] == "true"
+        for p in cur:
+            if p not in prev_prox:
+                eff.append(f"EProxySpawn {p} {show_term(cur[p])}")
+        if alive:
+            for p in prev_prox:
+                if p not in cur:
+                    eff.append(f"EProxyStop {p}")
+        curg = {(g[1], g[2]): set(g[3]) for g in groups}
+        for k, v in curg.items():
+            new = v - prev_groups.get(k, set())
+            if new:
+                eff.append(f"EPgJoin {k[0]} {k[1]} [{'; '.join(map(str, sorted(new)))}]")
+        if alive:
+            for k, v in prev_groups.items():
+                gone = v - curg.get(k, set()) - (set(prev_prox) - set(cur))
+                if gone:
+                    eff.append(f"EPgLeave {k[0]} {k[1]} [{'; '.join(map(str, sorted(gone)))}]")
+        for f in frames:
+            if head(f) == "ESendControl" and head(f[1]) == "KNodeSessions":
+                eff.append("EListSessions")
+        prev_prox, prev_groups = cur, curg
+        out.append(eff)
+    return out
 
 
 def run_gate(chk, build, factor):
-    return 0, set()
+    quick = chk.tier == "quick"
+    cases = gen_live(chk, (1500 if quick else 30000) * factor)
+    lines = [live_line(c) for c in cases]
+    impl = run_harness(build, "eng_gate", lines, shards=8)
+    parsed = [parse_term(x) for x in impl]
+    exprs_model, exprs_oracle = [], []
+    infos = []
+    for c, t in zip(cases, parsed):
+        hdr, init_frames, steps = t[1], t[2], t[3]
+        is_server, connid, rpid, ppid, nspid, spid = hdr[1] == "true", hdr[2], hdr[3], hdr[4], hdr[5], hdr[6]
+        cfg = f"(mkConfig {'true' if is_server else 'false'} 0 100 101 false {connid})"
+        msgs = []
+        for st in steps:
+            if st[1] == "Malformed":
+                break
+            msgs.append(f"({show_term(st[1])}, {infer_env(st[1:], rpid)})")
+        exprs_model.append(f"run_view dg_sym {cfg} (init_state {cfg}) [" + "; ".join(msgs) + "]")
+        # oracle inputs from the implementation's observations only
+        effs = impl_effects([s[1:] for s in steps], None)
+        adv = set()
+        obs, obs_closed = [], []
+        ok_before, dead = False, False
+        for st, eff in zip(steps, effs):
+            flags, frames = st[2], st[3]
+            obs.append(f"({'true' if ok_before else 'false'}, [{'; '.join(map(str, sorted(adv)))}], [{rpid}], [{'; '.join(eff)}])")
+            for f in frames:
+                if head(f) == "ESendControl" and head(f[1]) == "KSpawn":
+                    adv.update(a[1] for a in f[1][1])
+                if head(f) == "ESendControl" and head(f[1]) == "KTerminate":
+                    adv.difference_update(f[1][1])
+            ok_now = flags[2] == "true"
+            dead_now = flags[1] != "true"
+            obs_closed.append(f"({'true' if ok_now else 'false'}, {'true' if dead_now else 'false'}, [{'; '.join(eff)}])")
+            ok_before = ok_now
+        exprs_oracle.append(f"(check_C17 [{'; '.join(obs)}], check_C17_closed [{'; '.join(obs_closed)}] false)")
+        infos.append((is_server, rpid, steps, effs))
+    res = coq_eval("C17gate", IMPORTS, exprs_model + exprs_oracle, shards=min(NCPU, 12))
+    n = len(cases)
+    distinct = set()
+    for i, c in enumerate(cases):
+        is_server, rpid, steps, effs = infos[i]
+        chk.coverage["evaluations"] += 1
+        mview = parse_term(res[i])
+        mv = fold_model_view([(x[1], x[2], x[3]) for x in mview], len(steps))
+        iv = [impl_view(s[1:]) for s in steps]
+        oracle = parse_term(res[n + i])
+        if c[1]:
+            # a second (honest) session of the same node server is present: which of the two survives the
+            # election is C18's subject; compare the views only up to authentication (oracles still apply)
+            cut = next((j for j, (a, b) in enumerate(zip(mv, iv)) if a["ok"] or b["ok"]), len(iv))
+            mv, iv = mv[:cut], iv[:cut]
+        # ---- handshake oracle on the implementation's observations: authenticated only after the
+        # peer presented the digest of the challenge the session issued, with the session's cookie
+        issued, proved, why = None, False, ""
+        ever_ok = False
+        for s in steps:
+            msg, flags, frames, listed, rnd = s[1], s[2], s[3], s[7], s[8]
+            want = None if issued is None else 1 + issued
+            if isinstance(msg, tuple) and msg[0] == "NAuth" and isinstance(msg[1], tuple):
+                a = msg[1]
+                if is_server and a[0] == "AClientChallenge" and want is not None and a[2] == want:
+                    proved = True
+                if (not is_server) and a[0] == "AServerAck" and want is not None and a[1] == want:
+                    proved = True
+            if rnd:
+                issued = rnd
+            listed_self = any(x[1] == "true" for x in listed)
+            if (flags[2] == "true" or listed_self) and not proved:
+                why = "session authenticated / listed without the digest of its challenge"
+            ever_ok = ever_ok or flags[2] == "true"
+        reached = ever_ok or any(s[8] for s in steps)
+        chk.count("gate.server" if is_server else "gate.client")
+        chk.count("gate.authenticated" if ever_ok else ("gate.challenge_issued" if reached else "gate.closed_early"))
+        for eff in effs:
+            for e in eff:
+                chk.count("gate.effect." + e.split()[0])
+        if reached:
+            distinct.add(lines[i])
+        desc = json.dumps({"kind": "live", "harness_line": lines[i], "impl": impl[i][:6000],
+                           "model_view": res[i][:4000]}, indent=1)
+        if oracle[1] != "true" or oracle[2] != "true" or why:
+            chk.violation("live session: protected effect before authentication / delivery to a non-advertised pid / "
+                          "activity after close: " + (why or "check_C17 rejects"),
+                          "C17 oracle (check_C17, check_C17_closed, handshake) rejects the real session's observations\n"
+                          + (why + "\n" if why else "") + f"oracle={oracle}\n" + desc)
+        elif mv != iv:
+            chk.coverage["disagreements_checked"] += 1
+            first = next((j for j, (a, b) in enumerate(zip(mv, iv)) if a != b), None)
+            chk.violation("model/implementation disagree (live NodeSession vs Gate.v)",
+                          f"correspondence E4:eng_gate view differs at step #{first} (oracles accept)\n"
+                          f"model step: {mv[first] if first is not None else None}\nimpl step:  {iv[first] if first is not None else None}\n" + desc,
+                          failing_input=False)
+        if i in (3, 200) and len(chk.coverage["samples"]) < 6:
+            chk.coverage["samples"].append({"harness_line": lines[i], "impl": impl[i][:1500], "oracle": str(oracle)})
+    return n, distinct
